@@ -108,6 +108,56 @@ def directed_oversub():
     return out
 
 
+def kernel_cases():
+    """The kernel model's context switches (KCO / KCI) on top of the thread life-cycle: a thread that is
+    switched out is still Running for the ovni model — it must end before the trace does, and its physical
+    CPU stays taken.  Directed histories over two threads of one process and one physical CPU; illegal
+    ones are continued as if accepted, so that an emulator that accepts them ends with exit 0."""
+    req = {"ovni": "1.1.0", "kernel": "1.0.0"}
+    sys2 = emu_lib.Sys([("node0", [(100, [10, 11])], [3])], req)
+    sys1 = emu_lib.Sys([("node0", [(100, [10])], [3])], req)
+    out = []
+
+    def walk(tokens):
+        sysd = sys2 if "1" in tokens else sys1       # single-thread words run in a one-thread trace
+        c0 = (0, sysd.cpus[0])
+        w = Walk2(None, sysd, {})
+        w.tick = (lambda w=w: setattr(w, "clk", w.clk + 1) or w.clk)
+        for tok in tokens.split():
+            op, t = tok[0], int(tok[1])
+            if op == "O":
+                w.emit(t, "KCO")
+            elif op == "I":
+                w.emit(t, "KCI")
+            elif op == "E":                       # raw OHe after an illegal step (as if it had been accepted)
+                w.emit(t, "OHe")
+                w.st[t] = "dead"
+            elif op == "X":                       # execute on the taken CPU: illegal (oversubscription)
+                w.thread_op(t, "x", cpu=c0)
+            else:
+                w.thread_op(t, op, cpu=c0 if op == "x" else None)
+        return w
+
+    # legal: switched out and back in, then the end
+    for word in ("x0 O0 I0 e0", "x0 O0 I0 O0 I0 e0"):
+        w = walk(word)
+        out.append((w.sys, w.events, w.expected(), "; ".join(w.illegal)))
+    # the trace ends while the thread is switched out (or back in) but not dead: refused at the end
+    for word in ("x0 O0", "x0 O0 I0"):
+        w = walk(word)
+        exp = w.expected()
+        out.append((w.sys, w.events, "reject" if exp == "ok" else exp, "; ".join(w.illegal) or "thread not dead at the end"))
+    # a second thread executes on the physical CPU of a thread that is only switched out: oversubscription
+    w = walk("x0 O0 X1")
+    w.illegal = w.illegal or ["t1: execute on cpu 0 taken by the switched-out t0"]
+    why = list(w.illegal)
+    for t, mcv in ((1, "OHe"), (0, "KCI"), (0, "OHe")):
+        w.emit(t, mcv)
+    w.illegal = why
+    out.append((w.sys, w.events, "reject", "; ".join(why)))
+    return out
+
+
 def point_mismatch(mres, ires):
     """Both reject: the model at an event, ovniemu only at the end (or the other way round)."""
     if mres[0] == "reject" and ires[0] == "reject" and (mres[1] is None) != (ires[1] is None):
